@@ -43,6 +43,22 @@ def unhx(h):
     return b"" if h == "-" else bytes.fromhex(h)
 
 
+KELVIN = "\u212a".encode()        # U+212A KELVIN SIGN: strings.ToLower gives 'k'
+DOTTED_I = "\u0130".encode()      # U+0130 LATIN CAPITAL LETTER I WITH DOT ABOVE: strings.ToLower gives 'i'
+
+
+def go_lower(b):
+    """strings.ToLower(b) as far as a comparison with ASCII strings can tell (Http.go_lower): ASCII letters, and the only
+    two non-ASCII code points whose lower case is ASCII.  (Python's str.lower differs: it maps U+0130 to 'i' + U+0307.)"""
+    if isinstance(b, str):
+        b = b.encode()
+    return b.replace(KELVIN, b"k").replace(DOTTED_I, b"i").lower()      # bytes.lower: ASCII only
+
+
+def ascii_keys_lower(d):
+    return {k.lower().encode() for k in d}
+
+
 # ------------------------------------------------------------------------------------------------
 # configuration trees (python: dict = Node, ("s", str) / ("n", int) / ("b", bool) / ("l", [str]) / ("p", idx) = Leaf)
 # ------------------------------------------------------------------------------------------------
@@ -209,6 +225,11 @@ def param_pool(rng, existing):
         out.append(("existing", b))
         out.append(("upper", b.upper()))
         out.append(("lowered", b.lower()))
+        if any(c in b for c in b"kKiI"):
+            # viper compares names with Go's Unicode lower-casing: these spell the same module name
+            out.append(("unicode-case", b.replace(b"k", KELVIN).replace(b"K", KELVIN)))
+            out.append(("unicode-case", b.replace(b"i", DOTTED_I).replace(b"I", DOTTED_I)))
+            out.append(("unicode-case", b.replace(b"k", KELVIN[:2]).replace(b"i", DOTTED_I[:1])))      # truncated: not the name
         out.append(("near-miss", b + b"x"))
         if len(b) > 1:
             out.append(("near-miss", b[:-1]))
@@ -225,6 +246,9 @@ def param_pool(rng, existing):
     out += [("space", b" "), ("space", b"a b"), ("long", LONG), ("long", LONG + b".x"),
             ("unicode", "café".encode()), ("unicode", "クラスタ".encode()), ("unicode", "ÉCOLE".encode()),
             ("invalid-utf8", b"\xff\xfe"), ("invalid-utf8", b"c1\xc3"),
+            ("unicode-case", KELVIN), ("unicode-case", DOTTED_I), ("unicode-case", b"hoo" + KELVIN), ("unicode-case", b"ma" + DOTTED_I + b"l"),
+            ("unicode-case", b"sl" + KELVIN), ("unicode-case", b"z" + KELVIN + b"_1"), ("unicode-case", b"M" + DOTTED_I + b"xed"),
+            ("unicode-case", b"\xc3" + KELVIN), ("unicode-case", "\u017f".encode() + b"lk"),
             ("slash", b"a/b"), ("slash", b"/"), ("nul", b"\x00"), ("nul", b"a\x00b"),
             ("dotted", b"."), ("dotted", b".."), ("dotted", b"x.y"), ("dotted", b"storage.local"),
             ("percent", b"%"), ("percent", b"%2F"), ("percent", b"a%20b"), ("other", b"nosuchname"), ("other", b"0"),
@@ -416,11 +440,7 @@ def expect_exists(pattern, params, cfg, world):
     if pattern in CONFIG_DETAIL:
         sect = cfg.get(CONFIG_DETAIL[pattern], {})
         nm = params.get("cluster" if "cluster" in params else "name", b"")
-        try:
-            s = nm.decode("ascii")
-        except UnicodeDecodeError:
-            return False
-        return s.lower() in lower_keys(sect)
+        return go_lower(nm) in ascii_keys_lower(sect)
     if not pattern.startswith("/v3/kafka/"):
         return True
     wc = {w[0].encode(): w for w in world}
@@ -706,10 +726,7 @@ def e2e_expect(pattern, params, meta):
     if pattern in CONFIG_DETAIL:
         sect = {"cluster": meta["clusters"], "storage": ["e2e"], "evaluator": ["e2e"]}.get(CONFIG_DETAIL[pattern], [])
         nm = params.get("cluster" if "cluster" in params else "name", b"")
-        try:
-            return nm.decode("ascii").lower() in [s.lower() for s in sect]
-        except UnicodeDecodeError:
-            return False
+        return go_lower(nm) in ascii_keys_lower(sect)
     if not pattern.startswith("/v3/kafka/"):
         return True
     c = params.get("cluster", b"").decode("utf-8", "replace")
@@ -941,6 +958,8 @@ def gen_filecfg(rng, i, repo_config_dir):
         pats = ["/v3/config/%s/%%s" % sect] + (["/v3/kafka/%s"] if sect == "cluster" else [])
         for nm in list(cfg.get(sect, {})) + ["nosuch"]:
             variants = {nm, nm.lower(), nm.upper(), nm + "x", nm + ".class-name"} if nm != "nosuch" else {nm}
+            if nm != "nosuch" and any(c in nm for c in "kKiI"):
+                variants |= {nm.replace("k", "\u212a").replace("K", "\u212a"), nm.replace("i", "\u0130").replace("I", "\u0130")}
             for v in sorted(variants):
                 for pat in pats:
                     reqs.append((pat % escape(v.encode()), sect, v))
@@ -983,10 +1002,10 @@ def oracle_filecfg(meta, impl):
             if got != "[" + ",".join(have) + "]":
                 return "violation", "GET %s lists %s, the configuration file has %s" % (raw, got, have)
             continue
-        exists = name.lower() in have
+        exists = go_lower(name).decode("utf-8", "replace") in have
         if exists and not (code == "200" and errf == "f"):
             return "violation", ("GET %s answered %s error=%s although [%s.%s] is in the configuration file"
-                                 % (raw, code, errf, sect, [k for k in cfg[sect] if k.lower() == name.lower()][0]))
+                                 % (raw, code, errf, sect, [k for k in cfg[sect] if k.lower().encode() == go_lower(name)][0]))
         if not exists and not (code == "404" and errf == "t"):
             return "violation", "GET %s answered %s error=%s although the file has no %s module of that name" % (raw, code, errf, sect)
     return "ok", "filecfg-ok"
